@@ -161,6 +161,49 @@ Theorem C18_ws_reconnect_completes :
 Proof. exact ws_reconnect_completes. Qed.
 Print Assumptions C18_ws_reconnect_completes.
 
+Definition is_reconn (o : option resp) : bool := match o with Some RespReconn => true | _ => false end.
+(* 5b. ... and that does not depend on the resubscribes: handleReconnect completes the calls BEFORE it
+       attempts any resubscribe.  In any state after the reconnect began in which a resubscribe step is
+       enabled (ERcInflight s: request allocated; ERcSend ok: its send succeeds or FAILS, the hook then
+       returns the error and the websocket client reconnects again), and in the state after that step,
+       every call that was outstanding before the reconnect has completed or has its response
+       ([call_settled]).  No no_rc_abort hypothesis. *)
+Theorem C18_ws_reconnect_calls_before_resubscribe :
+  forall evs1 w1 w1' evs2 w2 e w3,
+    wrun evs1 winit = Some w1 -> wstep w1 EClear = Some w1' -> wrun evs2 w1' = Some w2 ->
+    resub_step e -> wstep w2 e = Some w3 ->
+    forall k i, waiting_id (w_cpc w1 k) = Some i -> call_settled w2 k i /\ call_settled w3 k i.
+Proof. exact ws_reconnect_calls_before_resubscribe. Qed.
+Print Assumptions C18_ws_reconnect_calls_before_resubscribe.
+
+(* non-vacuity of 5b: subscription 0 confirmed, call 1 outstanding, the connection drops, the resubscribe
+   send FAILS inside handleReconnect: call 1 already holds the reconnect error; a further reconnect finds
+   nothing left to fail *)
+Example C18_ws_reconnect_abort_nonvacuous :
+  match wrun [ESubCfg 0; ESubInflight 0; ESubSend 0 true; EFrame (FReply (Some 1%N) false (Some 5%N));
+              ERAddActive; ESubWait 0; ECallReg 1; ECallSend 1 true] winit with
+  | Some w1 =>
+      match wstep w1 EClear with
+      | Some w1' =>
+          match wrun [ERcDeliver 1; ERcInflight 0] w1' with
+          | Some w2 =>
+              match wstep w2 (ERcSend false) with
+              | Some w3 => is_reconn (w_chan w3 1%nat) &&
+                           match w_hpc w3, waiting_id (w_cpc w1 1%nat) with HIdle, Some 2%N => true | _, _ => false end &&
+                           match wrun [EClear; ERcInflight 0; ERcSend true; ECallRecv 1] w3 with
+                           | Some w4 => match w_cpc w4 1%nat with CGot 2%N CErrReconn => true | _ => false end
+                           | None => false
+                           end
+              | None => false
+              end
+          | None => false
+          end
+      | None => false
+      end
+  | None => false
+  end = true.
+Proof. vm_compute. reflexivity. Qed.
+
 (* 6. WebSocket: per reconnect each configured subscription is re-requested exactly once.  PARTIAL:
       proved for event sequences in which no reconnect begins while a Subscribe() call is between
       addConfiguredSub and the completion of its own send (ghost flag w_substraddle), and no
@@ -339,7 +382,6 @@ Proof. vm_compute. reflexivity. Qed.
 (* non-vacuity: two calls, replies in reverse order, a duplicate, then a third call caught by a
    reconnect: it ends with the reconnect error in its channel (the hypotheses of theorems 4-5 hold of
    this run; evaluated as one boolean so that no state has to be printed) *)
-Definition is_reconn (o : option resp) : bool := match o with Some RespReconn => true | _ => false end.
 Example C18_ws_nonvacuous :
   match wrun [ECallReg 0; ECallSend 0 true; ECallReg 1; ECallSend 1 true;
               EFrame (FReply (Some 2%N) false (Some 22%N)); ERDeliver; ECallRecv 1;
